@@ -236,32 +236,54 @@ IErr == [k |-> "err"]
 IsUp(nm) == Class(nm) = "U"
 From(tp, i) == SubSeq(tp, i, Len(tp))
 
-RECURSIVE IStack(_, _, _, _, _, _, _), IHash(_, _, _, _, _, _, _)
-IStack(cur, loc, tp, i, set, D1, D2) ==
+(* Stack.LookupSymbol searches the scopes of the cloned scope stack from    *)
+(* the innermost outwards: a name that the package does not define is found *)
+(* in a package that textually encloses it (the global scope is not         *)
+(* modelled: generated names never collide with global ones).  Returns the  *)
+(* path of the member found, or <<>>.                                       *)
+RECURSIVE Encl(_, _, _, _)
+Encl(t, cl, j, nm) ==
+    IF j < 0 THEN <<>>
+    ELSE LET a == NodeAt(t, SubSeq(cl, 1, j))
+         IN IF a[1] = "pkg" /\ Idx(a[2], nm) # 0 THEN Append(SubSeq(cl, 1, j), nm)
+            ELSE Encl(t, cl, j - 1, nm)
+
+(* x = [t, pre, set, D1, D2]: the tree, the path of the package the alias   *)
+(* is bound to, assignment?, the switches.  loc is the path (in t) of the   *)
+(* container being walked; wl > 0 while the walk is still inside the        *)
+(* synthetic containers of an alias kind (inpkg / inhash), which have one   *)
+(* entry each, the last one holding the package at x.pre.                   *)
+RECURSIVE IStack(_, _, _, _, _, _), IHash(_, _, _, _, _, _)
+IStack(x, cur, loc, wl, tp, i) ==
     LET nm == tp[i]
         k == Idx(cur[2], nm)
         last == (i = Len(tp))
-    IN IF k = 0 THEN IErr
-       ELSE LET m == cur[2][k][2] l2 == Append(loc, nm) IN
-            IF set /\ last THEN (IF IsUp(nm) THEN [k |-> "set", loc |-> l2] ELSE IErr)
+        up == IF k # 0 \/ wl > 0 THEN <<>> ELSE Encl(x.t, loc, Len(loc) - 1, nm)
+    IN IF k = 0 /\ up = <<>> THEN IErr
+       ELSE LET m == IF k # 0 THEN cur[2][k][2] ELSE NodeAt(x.t, up)
+                l2 == IF k = 0 THEN up ELSE IF wl = 1 THEN x.pre ELSE IF wl > 1 THEN loc ELSE Append(loc, nm)
+                w2 == IF wl > 0 THEN wl - 1 ELSE 0
+            IN
+            IF x.set /\ last THEN (IF IsUp(nm) /\ wl = 0 THEN [k |-> "set", loc |-> l2] ELSE IErr)
             ELSE IF last THEN (IF m[1] = "pkg" \/ IsUp(nm) THEN [k |-> "val", n |-> m, loc |-> l2] ELSE IErr)
             ELSE CASE m[1] = "hash" ->
                         IF ~IsUp(nm) THEN IErr
-                        ELSE IHash(m, l2, IF D1 THEN From(tp, 2) ELSE From(tp, i + 1), 1, set, D1, D2)
-                   [] m[1] = "pkg" -> IStack(m, l2, tp, i + 1, set, D1, D2)
+                        ELSE IHash(x, m, l2, w2, IF x.D1 THEN From(tp, 2) ELSE From(tp, i + 1), 1)
+                   [] m[1] = "pkg" -> IStack(x, m, l2, w2, tp, i + 1)
                    [] OTHER -> IErr
 
-IHash(cur, loc, tp, i, set, D1, D2) ==
+IHash(x, cur, loc, wl, tp, i) ==
     LET nm == tp[i]
         k == Idx(cur[2], nm)
         last == (i = Len(tp))
-        l2 == Append(loc, nm)
-    IN IF set /\ last THEN [k |-> "set", loc |-> l2]          \* HashSet creates a missing key
+        l2 == IF wl = 1 THEN x.pre ELSE IF wl > 1 THEN loc ELSE Append(loc, nm)
+        w2 == IF wl > 0 THEN wl - 1 ELSE 0
+    IN IF x.set /\ last THEN (IF wl = 0 THEN [k |-> "set", loc |-> l2] ELSE IErr)   \* HashSet creates a missing key
        ELSE IF k = 0 THEN IErr
        ELSE LET m == cur[2][k][2] IN
             IF last THEN [k |-> "val", n |-> m, loc |-> l2]
-            ELSE CASE m[1] = "hash" -> IHash(m, l2, tp, i + 1, set, D1, D2)
-                   [] m[1] = "pkg" -> IStack(m, l2, IF D2 THEN From(tp, 2) ELSE From(tp, i + 1), 1, set, D1, D2)
+            ELSE CASE m[1] = "hash" -> IHash(x, m, l2, w2, tp, i + 1)
+                   [] m[1] = "pkg" -> IStack(x, m, l2, w2, IF x.D2 THEN From(tp, 2) ELSE From(tp, i + 1), 1)
                    [] OTHER -> IErr
 
 (* the names an alias kind puts between the alias symbol and the package   *)
@@ -277,8 +299,7 @@ WrapNode(kind, n) == CASE kind = "inpkgU"  -> <<"pkg",  << <<<<81, "Q">>, n>> >>
                        [] OTHER -> n
 
 (* dotGetSetHelper: look the first segment up, then walk the rest with the *)
-(* walker that fits the value found.  Returns the walker result with loc   *)
-(* translated to a path of the tree.                                       *)
+(* walker that fits the value found.                                       *)
 ImplWalk(t, al, p, set, D1, D2) ==
     LET k == al[2]
         pre == SubSeq(p, 1, k)
@@ -286,13 +307,11 @@ ImplWalk(t, al, p, set, D1, D2) ==
         W == WrapNames(al[1])
         start == WrapNode(al[1], nk)
         tp == W \o From(p, k + 1)
-        r == IF nk = None \/ Len(tp) = 0 THEN IErr
-             ELSE CASE start[1] = "pkg"  -> IStack(start, <<>>, tp, 1, set, D1, D2)
-                    [] start[1] = "hash" -> IHash(start, <<>>, tp, 1, set, D1, D2)
-                    [] OTHER -> IErr
-    IN IF r.k = "err" THEN r
-       ELSE IF Len(r.loc) < Len(W) THEN IErr
-       ELSE [r EXCEPT !.loc = pre \o From(r.loc, Len(W) + 1)]
+        x == [t |-> t, pre |-> pre, set |-> set, D1 |-> D1, D2 |-> D2]
+    IN IF nk = None \/ Len(tp) = 0 THEN IErr
+       ELSE CASE start[1] = "pkg"  -> IStack(x, start, pre, Len(W), tp, 1)
+              [] start[1] = "hash" -> IHash(x, start, pre, Len(W), tp, 1)
+              [] OTHER -> IErr
 
 (* what the walkers with the switches D1, D2 do for the outside access o   *)
 (* (binding the alias to a nested package is itself a dot-path read from   *)
